@@ -233,8 +233,9 @@ theorem simplify_group (x : AStr) (nid : Nat) : GroupSettings (x.simplify nid) :
 
 /-- an input that is not well-formed for a terminal (`+1`, a negative number, a lone `38`, a
     non-number, a final byte other than `m`): the parsed value is parsable all the same -/
-example : (AStr.setAnsi "\x1b[+1;-3;38;x;31ma\x1b[2Jb\x1b[38;5;300;4mc".toList 0).1 =
-    { s := "a\x1b[2Jb\x1b[2Jc".toList.take 2 ++ "[2Jbc".toList
+example : Term.wellFormed "\x1b[+1;-3;38;?;31ma\x1b[2Jb\x1b[38;5;300;4mc".toList = false ∧
+    (AStr.setAnsi "\x1b[+1;-3;38;?;31ma\x1b[2Jb\x1b[38;5;300;4mc".toList 0).1 =
+    { s := "a\x1b[2Jbc".toList
       fmts := [(0, { add := [⟨0, "1".toList⟩, ⟨1, "31".toList⟩] }),
                (6, { add := [⟨2, "4".toList⟩] }),
                (7, { rem := [⟨0, "1".toList⟩, ⟨1, "31".toList⟩, ⟨2, "4".toList⟩] })] } := by
